@@ -65,8 +65,8 @@ func c14MapOrder(w *World, r *Result) {
 						}
 					case *ssa.Call:
 						callee := x.Call.StaticCallee()
-						if callee == nil || callee.Pkg == nil {
-							continue
+						if callee == nil {
+							continue // (instances of generic functions have no package of their own)
 						}
 						full := callee.String()
 						if strings.HasPrefix(full, "maps.Keys") || strings.HasPrefix(full, "maps.Values") || strings.HasPrefix(full, "maps.All") || strings.HasPrefix(full, "maps.Collect") {
